@@ -88,7 +88,7 @@ pub fn from_name(name: &str, seed: u64) -> Option<SynthFont> {
         "mx" => Some(match p[1] {
             "lig" if p.len() == 7 => {
                 let num = |x: &str, pre: &str| -> i64 { x.strip_prefix(pre).and_then(|v| v.parse().ok()).unwrap_or_else(|| panic!("font name {}", name)) };
-                mx_lig_font(name, num(p[2], "n") as usize, p[3], num(p[4], "da") == 1, num(p[5], "fda") == 1, num(p[6], "sk") == 1)
+                mx_lig_font(name, num(p[2], "n") as usize, p[3], num(p[4], "da"), num(p[5], "fda") == 1, num(p[6], "sk") == 1)
             }
             "ctx" if p.len() == 5 => mx_ctx_font(name, p[2], p[3] == "da1", p[4][1..].parse().expect("fmt")),
             "nc" if p.len() == 3 => mx_nc_font(name, p[2][1..].parse().expect("fmt")),
@@ -307,7 +307,11 @@ fn lig_actions(nc: usize, pat: &str) -> (Vec<Value>, Vec<i64>, Vec<i64>) {
     let mut stack: Vec<i64> = vec![G_F as i64; nc - 1];
     stack.push(G_I as i64);
     let mut acts = Vec::new();
-    let mut comps: Vec<i64> = Vec::new();
+    // The component of action j sits at 2 + 3 j with zeros around it: an engine that pops another
+    // component than the one the action was written for (f and i are neighbours) still reads a valid
+    // component and goes on - a slip of the cursor or of the stack then shows up where glyphs are
+    // removed, not as an early Err.
+    let mut comps: Vec<i64> = vec![0; 3 * steps.len() + 3 + (steps.len() + 1) % 2];
     let mut sum = 0i64;
     let mut component_pops = 0;
     for (j, (repop, store, last)) in steps.iter().enumerate() {
@@ -316,21 +320,23 @@ fn lig_actions(nc: usize, pat: &str) -> (Vec<Value>, Vec<i64>, Vec<i64>) {
             component_pops += 1;
         }
         let v = if !repop && component_pops == nc { nc as i64 - 1 } else { 0 };
-        comps.push(v);
+        let slot = 2 + 3 * j as i64;
+        comps[slot as usize] = v;
         sum += v;
-        acts.push(json!({"last": *last as i64, "store": *store as i64, "off": j as i64 - g}));
+        acts.push(json!({"last": *last as i64, "store": *store as i64, "off": slot - g}));
         if *store || *last {
             stack.push(ligs[sum as usize]);
         }
-    }
-    if comps.len() % 2 == 1 {
-        comps.push(0);
     }
     (acts, comps, ligs)
 }
 
 /// ligature subtable for f^(n-1) i
-fn lig_subtable(nc: usize, pat: &str, da: bool, fail_da: bool, skip: Option<u16>, fmt: i64, cov: i64, flags: i64) -> Value {
+/// `da`: 0 = the entry that performs the action advances; 1 = it has DONT_ADVANCE (the new ligature is
+/// looked at again from the start state); 2 = the last component is first pushed by an entry with
+/// DONT_ADVANCE that leads to an extra state, whose entry for the same glyph pushes again (the same
+/// position: one component) and performs the action, with DONT_ADVANCE.
+fn lig_subtable(nc: usize, pat: &str, da: i64, fail_da: bool, skip: Option<u16>, fmt: i64, cov: i64, flags: i64) -> Value {
     let mut cmap = map_of(&[(G_F, CL_F), (G_I, CL_I)]);
     let ncls = match skip {
         Some(g) => {
@@ -355,12 +361,17 @@ fn lig_subtable(nc: usize, pat: &str, da: bool, fail_da: bool, skip: Option<u16>
                 0 => 0,
                 2 => ents.id(vec![st, 0, 0, 0, 0]),
                 CL_F => ents.id(vec![(st + 1).min(last_state), 1, 0, 0, 0]),
-                CL_I if st == last_state => ents.id(vec![0, 1, 1, da as i64, 0]),
+                CL_I if st == last_state && da == 2 => ents.id(vec![last_state + 1, 1, 0, 1, 0]),
+                CL_I if st == last_state => ents.id(vec![0, 1, 1, da, 0]),
                 CL_X if skip.is_some() => ents.id(vec![st, 0, 0, 0, 0]),
                 _ => fail,
             });
         }
         rows.push(row);
+    }
+    if da == 2 {
+        let perform = ents.id(vec![0, 1, 1, 1, 0]);
+        rows.push((0..ncls).map(|c| if c == CL_I { perform } else { 0 }).collect());
     }
     let (acts, comps, ligs) = lig_actions(nc, pat);
     json!({"type": 2, "cov": cov, "flags": flags, "nc": ncls, "cls": mk_lookup(fmt, N, &cmap, false), "rows": rows,
@@ -387,7 +398,7 @@ fn mark_gpos() -> Value {
     )
 }
 
-fn mx_lig_font(name: &str, nc: usize, pat: &str, da: bool, fail_da: bool, skip: bool) -> SynthFont {
+fn mx_lig_font(name: &str, nc: usize, pat: &str, da: i64, fail_da: bool, skip: bool) -> SynthFont {
     let mut f = morx_base(name, "morx", if skip { A_MX_MK } else { A_MX }, C_MORX);
     let fmt = fmt_of(name, 1);
     let sub = lig_subtable(nc, pat, da, fail_da, if skip { Some(G_ACUTE) } else { None }, fmt, 0, 1);
@@ -402,8 +413,11 @@ fn mx_lig_font(name: &str, nc: usize, pat: &str, da: bool, fail_da: bool, skip: 
     tag(&mut f, "morx_ligature");
     tag(&mut f, &format!("morx_lig_components_{}", nc));
     tag(&mut f, &format!("morx_lig_pattern_{}", pat));
-    if da {
+    if da >= 1 {
         tag(&mut f, "morx_lig_action_entry_dont_advance");
+    }
+    if da == 2 {
+        tag(&mut f, "morx_lig_component_pushed_through_dont_advance");
     }
     if fail_da {
         tag(&mut f, "morx_lig_failure_dont_advance");
@@ -475,7 +489,7 @@ fn opaque(t: i64, flags: i64) -> Value {
 fn mx_multi_font(name: &str, v: i64) -> SynthFont {
     let mut f = morx_base(name, "morx", A_MX_MULTI, C_MORX_MULTI);
     let all = 65535;
-    let lig = |flags: i64, cov: i64| lig_subtable(3, "L", false, false, None, 6, cov, flags);
+    let lig = |flags: i64, cov: i64| lig_subtable(3, "L", 0, false, None, 6, cov, flags);
     let prog = match v {
         // ligatures under the common-ligatures selectors, digits under diagonal fractions (off by default)
         1 => json!({"ver": 2, "n": N, "lay": 0, "chains": [
